@@ -4,6 +4,7 @@ import (
 	"fmt"
 	"io"
 	"sort"
+	"strconv"
 	"strings"
 	"unicode"
 
@@ -1510,6 +1511,12 @@ func (rl *Shell) dumpVariables() {
 				}
 			}
 
+			// A bare value ends at a '#', a space or a control
+			// character when read back: such strings are quoted.
+			if str, isString := value.(string); isString && needsQuotes(str) {
+				value = strconv.Quote(str)
+			}
+
 			fmt.Printf("set %s %v\n", variable, value)
 		}
 	} else {
@@ -1518,6 +1525,22 @@ func (rl *Shell) dumpVariables() {
 			fmt.Printf("%s is set to `%v'\n", variable, value)
 		}
 	}
+}
+
+// needsQuotes returns true if a variable value must be written as a quoted
+// string for an inputrc reader to get all of it (and is not one already).
+func needsQuotes(value string) bool {
+	if strings.HasPrefix(value, "\"") || strings.HasPrefix(value, "'") {
+		return false
+	}
+
+	for _, char := range value {
+		if char == '#' || unicode.IsSpace(char) || unicode.IsControl(char) {
+			return true
+		}
+	}
+
+	return false
 }
 
 // Print all of the readline key sequences bound to macros
